@@ -49,6 +49,7 @@ declarations:
 - decl: void takeNames(char **names +intent(in)+rank(1))
 - decl: void modStr(std::string &s +intent(inout))
 - decl: void outCstr(char *s +intent(out)+charlen(20))
+- decl: void growCstr(char *s +intent(inout))
 - decl: void takeVec(const std::vector<int> &v)
 - decl: void takeVecStr(const std::vector<std::string> &v)
 - decl: std::vector<int> retVec()
@@ -96,6 +97,7 @@ void takeCstr(const char *s);
 void takeNames(char **names);
 void modStr(std::string &s);
 void outCstr(char *s);
+void growCstr(char *s);
 void takeVec(const std::vector<int> &v);
 void takeVecStr(const std::vector<std::string> &v);
 std::vector<int> retVec();
@@ -162,6 +164,7 @@ extern "C" { long vt_seen = 0; }
 void takeNames(char **names) { vt_seen = (long) std::strlen(names[0]) * 100 + (long) std::strlen(names[1]); }
 void modStr(std::string &s) { vt_seen = (long) s.size(); s += " and a tail that does not fit into the caller's variable"; }
 void outCstr(char *s) { std::strcpy(s, "twelve chars"); }
+void growCstr(char *s) { vt_seen = (long) std::strlen(s); std::strcat(s, "+xy"); }  /* the caller's variable has room for it */
 void takeVec(const std::vector<int> &v) { vt_seen = (long) v.size(); }
 void takeVecStr(const std::vector<std::string> &v) { vt_seen = (long) v.size() * 100 + (long) v[v.size() - 1].size(); }
 std::vector<int> retVec() { std::vector<int> v; v.push_back(4); v.push_back(5); v.push_back(6); return v; }
@@ -259,6 +262,10 @@ int main(int argc, char **argv) {
             } else if (op[1] == 'm') {
                 char *buf = (char *) malloc(id ? id : 1); memset(buf, ' ', id); memcpy(buf, "dog", id < 3 ? id : 3);
                 vt_seen = -1; OWN_mod_str_bufferify(buf, id < 3 ? id : 3, id); val = vt_seen * 1000; for (int k = 0; k < id; k++) val += (buf[k] != ' '); free(buf);
+            } else if (op[1] == 'g') {
+                /* a character(id) variable holding "ab": the library appends three characters, which fit */
+                char *buf = (char *) malloc(id ? id : 1); memset(buf, ' ', id); memcpy(buf, "ab", 2);
+                vt_seen = -1; OWN_grow_cstr_bufferify(buf, 2, id); val = vt_seen * 1000; for (int k = 0; k < id; k++) val += (buf[k] != ' '); free(buf);
             } else if (op[1] == 'o') {
                 char *buf = (char *) malloc(id ? id : 1); memset(buf, 'z', id);
                 OWN_out_cstr_bufferify(buf, id); for (int k = 0; k < id; k++) val += (buf[k] != ' '); free(buf);
@@ -402,12 +409,14 @@ program drv
         call mod_case(id, val)
       case ('o')
         call out_case(id, val)
+      case ('g')
+        call grow_case(id, val)
       case ('v')
         call vec_case(id)
       case ('w')
         call vecstr_case(id)
       end select
-      if (op(2:2) /= 'm' .and. op(2:2) /= 'o') val = vt_seen
+      if (op(2:2) /= 'm' .and. op(2:2) /= 'o' .and. op(2:2) /= 'g') val = vt_seen
     end select
     call status(trim(op), val)
   end do
@@ -444,6 +453,18 @@ contains
     integer :: k
     sv = 'dog'
     call mod_str(sv)
+    v = vt_seen * 1000
+    do k = 1, n
+      if (sv(k:k) /= ' ') v = v + 1
+    end do
+  end subroutine
+  subroutine grow_case(n, v)
+    integer, intent(in) :: n
+    integer(C_LONG), intent(out) :: v
+    character(len=n) :: sv
+    integer :: k
+    sv = 'ab'
+    call grow_cstr(sv)
     v = vt_seen * 1000
     do k = 1, n
       if (sv(k:k) /= ' ') v = v + 1
@@ -504,7 +525,7 @@ class M(object):
 
 IDS = {0: 5, 1: 7}
 # stateless calls whose wrappers build temporaries: op -> value the driver must report
-TEMP_VALS = {"Tn:1": 101, "Tn:4": 201, "Tm:1": 1001, "Tm:3": 3003, "Tm:8": 3006, "To:20": 11, "To:32": 11,
+TEMP_VALS = {"Tn:1": 101, "Tn:4": 201, "Tm:1": 1001, "Tm:3": 3003, "Tm:8": 3006, "To:20": 11, "To:32": 11, "Tg:5": 2005, "Tg:9": 2005,
              "Tv:0": 0, "Tv:3": 3, "Tw:1": 201, "Tw:4": 201}
 TEMP_OPS = sorted(TEMP_VALS)
 
